@@ -93,4 +93,40 @@ theorem envW_order_matters :
     (by decide) (by decide)]
   simp [objNode, s]
 
+/-! ## a recursive type, evaluated -/
+
+theorem gen_struct_seen {env : Env} {seen opn : List Nat} {id : Nat} {n p : B} {fs : List Field} {st : Schemas}
+    (hl : env.lookup id = some (.struct n p fs)) (hs : id ∈ seen) (hn : schemaName n p ≠ []) :
+    gen env seen opn (.named id) st = (refTo (schemaName n p), st) := by
+  rw [gen]
+  split
+  next heq => exact absurd (hl.symm.trans heq) (by simp)
+  next u' heq => exact absurd (hl.symm.trans heq) (by simp)
+  next name' pkg' fs' heq =>
+    have := hl.symm.trans heq
+    simp only [Option.some.injEq, Def.struct.injEq] at this
+    obtain ⟨rfl, rfl, rfl⟩ := this
+    simp only [hs, dite_true]
+    rw [if_pos hn]
+
+/-- `type Node struct { Next *Node "json:next" }` -/
+def envR : Env := [(0, .struct (s "Node") (s "x/pa") [.field (fmW "Next" "next") (.ptr (.named 0))])]
+
+/-- generating the recursive type terminates with a reference to the component it registers, and the
+    component refers to itself -/
+theorem envR_eval : gen envR [] [] (.named 0) [] =
+    (refTo (s "pa.Node"), [(s "pa.Node", objNode [] (.cons (s "next") (refTo (s "pa.Node")) .nil))]) := by
+  rw [gen_struct_fresh (n := s "Node") (p := s "x/pa") (fs := [.field (fmW "Next" "next") (.ptr (.named 0))])
+    (by decide) (by simp) (by decide) (by decide)]
+  rw [flatten, flatten]
+  have hreq : isFieldRequired envR (fmW "Next" "next") (.ptr (.named 0)) = false := by decide
+  rw [genFields, if_neg (by decide), if_neg (by decide), genFields, gen,
+    gen_struct_seen (n := s "Node") (p := s "x/pa") (fs := [.field (fmW "Next" "next") (.ptr (.named 0))])
+      (by decide) (by simp) (by decide)]
+  have h1 : schemaName (s "Node") (s "x/pa") = s "pa.Node" := by decide
+  have h2 : parseJSONName (fmW "Next" "next").json (fmW "Next" "next").name = s "next" := by decide
+  have h3 : (fmW "Next" "next").validate = [] := rfl
+  simp only [hreq, Bool.false_and, h1, h2, h3, applyConstraints_nil, PTree.set, setNullable, refTo, Tree.modHead]
+  rfl
+
 end Rivaas.OpenAPI
